@@ -211,6 +211,19 @@ def bounded(check, tier, seed):
                 s.contract_case(A.shared_atts, dict(self=f), key=("shared", combo, empties))
                 s.contract_case(A.copy_with_new_str, dict(self=f, new_str="zz"), key=("cwns", combo, empties))
     s.done()
+    from bounded.derived import derived_values
+    nd = 4000 if tier == "thorough" else 500
+    s = Suite(check, "C14.derived", f"{nd} values at the end of chains of <= 4 public operations: shared_atts / copy_with_new_str contracts at run time, "
+              "and re-formatting (keyword, positional, helper) against the per-character expectation", bound="chains <= 4 operations", exhaustive=False)
+    for k, v in enumerate(derived_values(seed + 6, nd)):
+        s.contract_case(A.shared_atts, dict(self=v), key=("d", k, "shared"))
+        s.contract_case(A.copy_with_new_str, dict(self=v, new_str="zz"), key=("d", k, "cwns"))
+        case = dict(kind="apply", runs=[(c.s, dict(c.atts)) for c in v.chunks], want={"fg": "red", "bold": (k % 2 == 0)}, rem=["bg"], order=(k % 3) / 3)
+        s.case(("d", k, "apply"))
+        d = apply_case(case, value=v)
+        if d:
+            s.fail("C14.apply", dict(case, value=repr(v), kind2="derived"), d, replay=None)
+    s.done()
     # formatting applied to TEXT (not to an existing FmtStr): plain text, text carrying escape sequences that parse, and text whose
     # escape sequences do not parse (from_str then falls back to stripping them) - every spelling must format every character
     texts = ["", "ab", "a\nb", "\x1b[31mred\x1b[39m plain", "\x1b[1mB\x1b[0m\x1b[44mx", "\x1b[90mbright\x1b[0m", "x\x1b[22my", "\x1b[100mq\x1b[49m r",
@@ -273,9 +286,9 @@ def _rand_atts(rng):
     return d
 
 
-def apply_case(case):
+def apply_case(case, value=None):
     from curtsies import fmtfuncs
-    f = FmtStr(*[Chunk(t, dict(a)) for t, a in case["runs"]])
+    f = value if value is not None else FmtStr(*[Chunk(t, dict(a)) for t, a in case["runs"]])
     want, rem = case["want"], case["rem"]
     base = cells(f)
     if case.get("order", 0) < 0.5:
